@@ -442,6 +442,17 @@ def load_known():
 # ----------------------------------------------------------------------------- property definitions
 from props import PROPS  # noqa: E402
 
+_scratch = []
+def scratch_dir():
+    """scratch directory for files the monitors write (never under /tmp: registered commands must not depend on it)"""
+    if not _scratch:
+        d = os.path.join(BUILD, "scratch.%d" % os.getpid())
+        os.makedirs(d, exist_ok=True)
+        _scratch.append(d)
+        import atexit
+        atexit.register(lambda: shutil.rmtree(d, ignore_errors=True))
+    return _scratch[0]
+
 def write_replay(pid, stage, ev, key, msg, seed):
     d = os.path.join(REPLAYS, pid)
     os.makedirs(d, exist_ok=True)
@@ -466,6 +477,7 @@ def check(pid, tier, seed):
     builds = []
     stage_summ = []
     digests = []
+    sub_evals = 0
     custom = getattr(sys.modules["props"], "CUSTOM", {}).get(pid)
     stages = prop["stages"](tier) if callable(prop["stages"]) else prop["stages"]
     build_many(sorted({s["cfg"] for s in stages}))
@@ -473,7 +485,7 @@ def check(pid, tier, seed):
         n = st[tier][0] if isinstance(st[tier], (tuple, list)) else st[tier]
         if n <= 0:
             continue
-        margs = [st["monitor"]] + list(st["args"]) + ["--tier", tier]
+        margs = [st["monitor"]] + [scratch_dir() if x == "@TMP@" else x for x in st["args"]] + ["--tier", tier]
         if isinstance(st[tier], (tuple, list)) and len(st[tier]) > 1 and st[tier][1]:
             margs += ["--maxdim", str(st[tier][1])]
         ts = time.time()
@@ -491,6 +503,9 @@ def check(pid, tier, seed):
             tagl = [] if ev.tags == "-" else ev.tags.split(",")
             for t in tagl:
                 if t.startswith("digest="):
+                    continue
+                if t.startswith("evals="):
+                    sub_evals += int(t[6:])
                     continue
                 tags[t] = tags.get(t, 0) + 1
             if ev.nontrivial and not ev.fails:
@@ -556,7 +571,8 @@ def check(pid, tier, seed):
     ev = {
         "property_id": pid, "tier": tier, "seed": seed, "level": prop["level"],
         "coverage": {
-            "evaluations": evaluations,
+            "evaluations": evaluations + sub_evals,
+            "cases": evaluations,
             "distinct_nontrivial": len(classes),
             "rule": prop["rule"],
             "samples": samples[:6],
